@@ -1080,7 +1080,10 @@ def run_probe_window(K, own_hex, contacts, setup, newcomer, second, outcome):
         for op in setup:
             rec = ex.apply(op)
             if rec.exc is not None:
-                raise RuntimeError(f'part P setup diverged: {op} raised {rec.exc!r}')
+                # a changed tree may break the set-up itself: not this family's business (parts S/R/D judge
+                # sequential histories) - never an assert, an exit 2 would hide their VIOLATION line
+                log.append(f'part P setup not runnable: {op} raised {rec.exc!r}')
+                return 'not-runnable', [], log
         log.append(f'after setup {fmt_ops(setup)}: {ex.table_canon()}')
         loop = ex.loop
         loop._vtime = ex.vtime
@@ -1098,7 +1101,8 @@ def run_probe_window(K, own_hex, contacts, setup, newcomer, second, outcome):
                 first.cancel()
                 loop.drain()
             elif first.exception() is not None:
-                raise RuntimeError(f'part P: un-suspended add raised {first.exception()!r}')
+                log.append(f'part P: un-suspended add raised {first.exception()!r}')
+                return 'not-runnable', [], log
             return 'no-suspend', [], log
         log.append(f'add(c{newcomer}) suspended in probe(c{ex.index[probed[0]]})')
         bad = []
@@ -1146,7 +1150,8 @@ def probe_window_family(res):
                 status, _, _ = run_probe_window(K, own, contacts, setup, newcomer, None, 'a')
                 res.count('traces')
                 if status != 'judged':
-                    res.tally('probe_window_newcomer_not_suspended')
+                    res.tally('probe_window_newcomer_not_suspended' if status == 'no-suspend'
+                              else 'probe_window_scenario_not_runnable')
                     continue
                 seconds = [None] + [('add', i, oc) for oc in 'at' for i in range(n)] + \
                           [('rm', i) for i in sorted(members)]
@@ -1156,6 +1161,9 @@ def probe_window_family(res):
                         res.count('traces')
                         res.count('probe_window_executions')
                         res.count('transitions', len(setup) + 2)
+                        if status == 'not-runnable':
+                            res.tally('probe_window_scenario_not_runnable')
+                            continue
                         if status != 'judged':
                             res.error(f'part P: add(c{newcomer}) after setup {si} suspended once but not again')
                             continue
